@@ -582,6 +582,9 @@ def fold_env() -> dict[str, Any]:
 
 def gen_fold_exprs(ctx: common.Ctx, n_random: int) -> tuple[list[str], list[str]]:
     d1 = [e for e in G.fold_depth1() if G.fold_guard(e)[0]]
+    # depth-2 unary-under-binary over the bool/int boundary, always present (seed independent)
+    d1 += [f"({u}{b}) {op} {c}" for u in ("+", "-", "~") for b in ("True", "False", "FT", "1") for op in ("+", "*", "//")
+           for c in ("1", "2.0")]
     rng = common.rng_for("C12", "fold", "random")
     env = fold_env()
     names = list(FOLD_DECLS)
@@ -823,10 +826,10 @@ def run(ctx: common.Ctx) -> None:
     only = set(filter(None, os.environ.get("VERIF_C12_ONLY", "").split(","))) or set(SUBS)
     if quick:
         call_exh, n_call_rand, n_corpus = [(3, 2)], sc(36000), sc(200)
-        n5_step, n6_build, n6_direct = 1, sc(3000), sc(300000)
+        n5_step, n6_build, n6_direct = 1, sc(3000), sc(200000)
         n_combo = sc(2500)
         build_cfgs = [((3, 10 + i), G.PLATFORMS[i % 5], native) for i in range(6) for native in (False, True)]
-        n_fold_rand, mypyc_every = sc(9000), 1
+        n_fold_rand, mypyc_every = sc(7000), 1
     else:
         call_exh, n_call_rand, n_corpus = [(4, 2), (3, 3)], sc(450000), sc(2500)
         n5_step, n6_build, n6_direct = 1, sc(100000), None
@@ -921,7 +924,7 @@ def run(ctx: common.Ctx) -> None:
     ctx.exhaustive = False
     summary = {}
     # (agreeing accepts, agreeing rejects) the unchanged tree yields; a sub-monitor below 40 % of either is inconclusive
-    floors = ({"call": (13800, 61000), "mro": (130000, 97000), "reach": (114000, 115000), "fold": (22900, 26500)} if quick else
+    floors = ({"call": (13800, 61000), "mro": (100000, 75000), "reach": (115000, 116000), "fold": (40000, 30000)} if quick else
               {"call": (131000, 988000), "mro": (756000, 933000), "reach": (620000, 614000), "fold": (97000, 125000)})
     for s in SUBS:
         d = sub.n[s]
